@@ -29,6 +29,22 @@ def check(ctx):
     nx = rng.randint(1, 4)
     nu = rng.choice([0, 0, 1, 2])
     X, kw, _, _ = lc.lin_data(rng, nx, nu, radius=rng.choice([0.7, 0.95, 1.05]), noise=rng.choice([0.0, 0.02]), n_min=14)
+    form = 'float64'
+    if rng.random() < 0.35:
+        # the same kind of data handed over in another valid form: integer-valued (quantised) samples as an integer
+        # array, a single episode without episode feature, Fortran order, a read-only array
+        form = rng.choice(['int64', 'int32', 'no-episode-feature', 'int64/no-episode-feature', 'fortran', 'readonly'])
+        from .. import structural as st
+        if 'no-episode-feature' in form:
+            first = X[X[:, 0] == X[0, 0]][:, 1:]
+            X, kw = first, dict(kw, episode_feature=False)
+        if 'int' in form:
+            e = 1 if kw.get('episode_feature') else 0
+            Xq = X.copy()
+            Xq[:, e:] = np.round(Xq[:, e:] * 40)
+            X = Xq.astype('int32' if form.startswith('int32') else 'int64')
+        elif form in ('fortran', 'readonly'):
+            X = st.in_form(X, form)
     mode = rng.choice(['exact', 'projected'])
     if nu == 0 and rng.random() < 0.6:
         t, td = tsvd_choice(rng, nx)
@@ -39,7 +55,7 @@ def check(ctx):
         t2, d2 = tsvd_choice(rng, nx)
         est = pykoop.Dmdc(mode_type=mode, tsvd_unshifted=t1, tsvd_shifted=t2)
         desc = f'Dmdc({mode}, {d1}, {d2})'
-    case = {'estimator': desc, 'nx': nx, 'nu': nu, 'X': X.tolist(), 'replay': {'rng': snap}}
+    case = {'estimator': desc, 'nx': nx, 'nu': nu, 'form': form, 'X': X.tolist(), 'replay': {'rng': snap}}
     try:
         est.fit(X, **kw)
     except Exception as ex:
